@@ -16,12 +16,12 @@ Clause(e) ==
    IN IF e.raised THEN (IF e.zerodiv /\ CouldRaiseLegacy(edges, obs) THEN "legacy_vertical" ELSE "raised")
       ELSE IF Len(e.states) # Len(e.obs) THEN "number_of_states_differs_from_number_of_observations"
       ELSE IF e.pre # e.post THEN "track_observations_changed"
-      ELSE IF Len(e.cands) # Len(e.obs) THEN "number_of_candidate_lists_differs_from_number_of_observations"
-      ELSE IF \E k \in DOMAIN e.obs : ~(\E j \in DOMAIN e.cands[k] : St(e.cands[k][j]) = St(e.states[k])) THEN "assigned_state_is_not_one_of_the_candidates"
       ELSE LET bad == {k \in DOMAIN e.obs : AcceptState(edges, obs[k], r2, St(e.states[k])) # "ok"} IN
-           IF bad = {} THEN "ok"
-           ELSE LET k == CHOOSE k \in bad : \A j \in bad : k <= j IN
-                AcceptState(edges, obs[k], r2, St(e.states[k]))
+           IF bad # {} THEN LET k == CHOOSE k \in bad : \A j \in bad : k <= j IN AcceptState(edges, obs[k], r2, St(e.states[k]))
+           \* beyond the listed property (growth): the decoder must have picked each state from that epoch's candidate list
+           ELSE IF Len(e.cands) # Len(e.obs) THEN "growth_number_of_candidate_lists_differs_from_number_of_observations"
+           ELSE IF \E k \in DOMAIN e.obs : ~(\E j \in DOMAIN e.cands[k] : St(e.cands[k][j]) = St(e.states[k])) THEN "growth_assigned_state_is_not_one_of_the_candidates"
+           ELSE "ok"
 
 Cases == ndJsonDeserialize(IOEnv.TRACE_FILE)
 Bt == INSTANCE Batch WITH Clause <- Clause, Cases <- Cases
